@@ -1,0 +1,63 @@
+//go:build verif
+
+// Contracts for govc (/verif): C02 "Spending requires threshold signatures over the payload hash". Comment-only file.
+// This file holds the SPEC VOCABULARY of C02 only. The function contracts that carry the property are clauses labelled [c02-*]
+// that were added IN PLACE to the (single) contracts of
+//   Script.VerifyFormat, Script.Validate, validateUTXO, validateInputs, Validate, ReadUTXOLock (assumed)   -> zz_contracts_c05_verif.go
+//   validateAggregatedSigners (unchanged: [iff] result == nil <==> SignersOK)                                -> zz_contracts_c06_verif.go
+//   crypto.BatchVerify, crypto.AggregateVerify (assumed)                                                    -> crypto/zz_contracts_c05_verif.go
+
+package common
+
+//@ -- a well-formed threshold script: CMP SUM t with t <= 64; s[2] is the threshold
+//@ spec ScriptOK(s Script) bool = len(s) == 3 && s[0] == OperatorCmp && s[1] == OperatorSum && s[2] <= Operator64
+
+//@ -- the key OBJECTS of a key list are pairwise distinct (keySigs is keyed by object identity)
+//@ spec PtrDistinct(ks []*crypto.Key) bool = forall a, b int :: 0 <= a && a < b && b < len(ks) ==> ks[a] != ks[b]
+
+//@ -- AggWindow(S, lo, n, from, to): in the strictly increasing signer list S, exactly the n entries S[lo .. lo+n) lie in [from, to)
+//@ spec AggWindow(s []int, lo int, n int, from int, to int) bool = 0 <= lo && 0 <= n && lo + n <= len(s) &&
+//@     (forall j int :: 0 <= j && j < lo ==> s[j] < from) &&
+//@     (forall j int :: lo <= j && j < lo + n ==> from <= s[j] && s[j] < to) &&
+//@     (forall j int :: lo + n <= j && j < len(s) ==> to <= s[j])
+
+//@ -- number of entries of a signature map as the CODE computes it (len of a nil map is 0; the spec-level len reads the length component)
+//@ spec SigCount(m map[uint16]*crypto.Signature) mathint = m == nil ? 0 : len(m)
+
+//@ -- Witness2 is the constant-true predicate: it only gives the solver a term to instantiate an existential pair with (trigger)
+//@ uninterp Witness2(a mathint, b mathint) bool
+//@ axiom forall a, b int :: {Witness2(a, b)} Witness2(a, b)
+//@ uninterp Witness1(a mathint) bool
+//@ axiom forall a int :: {Witness1(a)} Witness1(a)
+
+//@ spec NoWrap(offset int, ks []*crypto.Key) bool = offset + len(ks) < 9223372036854775808
+
+// ───────────── the spent outputs as seen through the store interface (see zz_contracts_c01_verif.go for the idea) ─────────────
+//@ uninterp StoreKeyCount(s any, h crypto.Hash, i mathint) mathint
+//@ uninterp StoreKeyVal(s any, h crypto.Hash, i mathint, j mathint) crypto.Key
+//@ uninterp StoreThreshold(s any, h crypto.Hash, i mathint) mathint
+//@ spec InKeyCount(s any, in *Input) mathint = StoreKeyCount(s, in.Hash, in.Index)
+//@ spec InKeyVal(s any, in *Input, j mathint) crypto.Key = StoreKeyVal(s, in.Hash, in.Index, j)
+//@ spec InThreshold(s any, in *Input) mathint = StoreThreshold(s, in.Hash, in.Index)
+
+//@ -- typing fact: the signature maps of the transaction are objects that exist when the call is made (none of them is a map the callee allocates)
+//@ spec SigMapsExist(tx *SignedTransaction) bool = forall k int :: 0 <= k && k < len(tx.SignaturesMap) ==> allocated(tx.SignaturesMap[k])
+
+//@ -- KeyOff(s, tx, k): the number of keys of the outputs spent by inputs 0..k-1 = the offset of input k's window in the concatenated key list
+//@ rec KeyOff(s any, tx *Transaction, n int) mathint = n <= 0 ? 0 : KeyOff(s, tx, n - 1) + StoreKeyCount(s, tx.Inputs[n - 1].Hash, tx.Inputs[n - 1].Index)
+//@ recframe KeyOff
+//@ -- reclimit: one unfolding per existing term (the plain defining axiom unfolds KeyOff(k), KeyOff(k-1), ... for a symbolic k: a matching loop)
+//@ reclimit KeyOff
+
+//@ -- signer position i of the aggregate signature falls into the key window of input k
+//@ spec InAggWindow(s any, tx *SignedTransaction, k int, i int) bool = 0 <= i && i < len(tx.AggregatedSignature.Signers) &&
+//@     KeyOff(s, &tx.Transaction, k) <= tx.AggregatedSignature.Signers[i] &&
+//@     tx.AggregatedSignature.Signers[i] < KeyOff(s, &tx.Transaction, k) + InKeyCount(s, tx.Inputs[k])
+
+//@ -- PayloadHashOf(ver): the value ver.PayloadHash() returns (Blake3 of the payload encoding, cached in ver.hash). ABSTRACTION: a function of the
+//@ -- transaction object, i.e. the payload fields are not mutated between two calls (pinned by the `assumes` clause of PayloadHash, C06 file).
+//@ uninterp PayloadHashOf(ver *VersionedTransaction) crypto.Hash
+
+//@ -- typing fact: the signature objects are not the hash cache of the transaction (a [64]byte object is never the [32]byte field ver.hash)
+//@ spec SigsNotHashCache(ver *VersionedTransaction) bool = forall k int, i uint16 :: 0 <= k && k < len(ver.SignaturesMap) && has(ver.SignaturesMap[k], i) ==>
+//@     ver.SignaturesMap[k][i] != &ver.hash
